@@ -150,6 +150,10 @@ type SimConfig struct {
 	// KeepHeap: do not let unknown calls havoc anything (used by rules that
 	// only look at values, not at heap state).
 	NoHavoc bool
+	// PanicAtDyncall adds, for every call through a function value (handlers
+	// such as c.Next()), the path on which that call panics: the deferred
+	// calls registered so far run and the function exits abnormally.
+	PanicAtDyncall bool
 }
 
 type Sim struct {
@@ -1030,6 +1034,11 @@ func (s *Sim) call(fr *Frame, st *State, x *ssa.Call, b *ssa.BasicBlock, i int, 
 	ev.Result = res
 	s.emit(st, fr, ev)
 	s.callEffects(st, ev)
+	if s.Cfg.PanicAtDyncall && ev.Kind == "dyncall" {
+		st2, fr2 := st.clone(), fr.clone()
+		s.emit(st2, fr2, &Event{Kind: "panic", Instr: x, Val: &Term{Op: "sym", Name: "panic-in:" + name}})
+		s.runDefers(fr2, st2, func(st3 *State) { k(st3, nil, "panic") })
+	}
 	fr.env[x] = res
 	return false
 }
